@@ -292,12 +292,16 @@ func (h *history) prefixAnnotated(j int, verdicts map[key]*childVerdict) (osm.Wa
 }
 
 // applyAt returns the children of parent version i of an annotated result after
-// ApplyUpdatesUpTo(t) on a deep copy.
-func applyAt(res *execRes, i int, t time.Time) ([]pslot, error) {
+// ApplyUpdatesUpTo(t) on a copy. With share the copy is the value copy a caller makes
+// (c := *w, children copied because applying writes them): its update list aliases the
+// annotated element's, so an apply that writes into that list shows in every later query.
+func applyAt(res *execRes, i int, t time.Time, share bool) ([]pslot, error) {
 	if res.ways != nil {
 		c := *res.ways[i]
 		c.Nodes = append(osm.WayNodes(nil), res.ways[i].Nodes...)
-		c.Updates = append(osm.Updates(nil), res.ways[i].Updates...)
+		if !share {
+			c.Updates = append(osm.Updates(nil), res.ways[i].Updates...)
+		}
 		if err := c.ApplyUpdatesUpTo(t); err != nil {
 			return nil, err
 		}
@@ -305,7 +309,9 @@ func applyAt(res *execRes, i int, t time.Time) ([]pslot, error) {
 	}
 	c := *res.rels[i]
 	c.Members = append(osm.Members(nil), res.rels[i].Members...)
-	c.Updates = append(osm.Updates(nil), res.rels[i].Updates...)
+	if !share {
+		c.Updates = append(osm.Updates(nil), res.rels[i].Updates...)
+	}
 	if err := c.ApplyUpdatesUpTo(t); err != nil {
 		return nil, err
 	}
@@ -677,8 +683,25 @@ func c11History(t *testing.T, r *kit.Run, hi int, h *history, p *plan, ao annOpt
 					}
 				}
 			}
-			for _, tq := range times {
-				slots, err := applyAt(&res, i, tq)
+			var updBefore osm.Updates
+			if res.ways != nil {
+				updBefore = append(osm.Updates(nil), res.ways[i].Updates...)
+			} else {
+				updBefore = append(osm.Updates(nil), res.rels[i].Updates...)
+			}
+			for qi, tq := range times {
+				slots, err := applyAt(&res, i, tq, qi%2 == 0)
+				if qi%2 == 0 {
+					o.ProbeN("time-travel-queries-on-value-copy", 1)
+					cur := res.updatesOf(i)
+					same := len(cur) == len(updBefore)
+					for k := 0; same && k < len(cur); k++ {
+						same = cur[k] == updBefore[k]
+					}
+					if !same {
+						violate("C11/time-travel/apply-on-a-copy-rewrote-the-update-list", "parent v%d: ApplyUpdatesUpTo(+%v) on a value copy changed the annotated element's own update list", pv.version, tq.Sub(h.uploads[0]))
+					}
+				}
 				o.ProbeN("time-travel-queries", 1)
 				if err != nil {
 					violate("C11/time-travel/apply-error", "parent v%d ApplyUpdatesUpTo(+%v): %v", pv.version, tq.Sub(h.uploads[0]), err)
@@ -779,4 +802,12 @@ func c11History(t *testing.T, r *kit.Run, hi int, h *history, p *plan, ao annOpt
 		}
 	}
 	return nontrivial
+}
+
+// updatesOf is the update list of parent version i of an annotated result.
+func (r *execRes) updatesOf(i int) osm.Updates {
+	if r.ways != nil {
+		return r.ways[i].Updates
+	}
+	return r.rels[i].Updates
 }
